@@ -4,14 +4,26 @@
    combinator tree [c] as CombinatorStep.run does and returns, per arrival, the emitted combinations
    (port -> (id, tag) maps) and the exception that ended the run, if any.
 
-   WHAT IS PROVED FOR ALL INPUTS: the dot product on one tag (n ports, any n, any arrival order).  The general
-   statements of the property text (several tags, broadcast of parent tags, cartesian cross product, nesting) are
-   NOT proved; they are decided case by case by the check's oracle and tied to the model by the correspondence.
+   WHAT IS PROVED FOR ALL INPUTS: the dot product over "flat" streams (any number of ports and tags, no tag an
+   ancestor of another, each port carrying each tag at most once), for every arrival order; and its one-tag special
+   case with an explicit order-independence corollary.  The other statements of the property text (broadcast of
+   parent tags, cartesian cross product and composite tags, nesting) are NOT proved; they are decided case by case
+   by the check's oracle and tied to the model by the correspondence.
    The three [_refuted] theorems are the input classes where the faithful model (and the code) break the text. *)
 From Coq Require Import List Bool NArith Arith Permutation.
-From SF Require Import Base.Str Tags.Model Comb.Model Comb.Proofs.
+From SF Require Import Base.Str Tags.Model Comb.Model Comb.Proofs Comb.Flat.
 Import ListNotations.
 Local Open Scope string_scope. Local Open Scope list_scope.
+
+(* PARTIAL (no parent/child tags): a dot product over the ports [items] (n of them, distinct) fed ANY arrival list
+   [arr] in which every port carries each tag at most once and no two distinct tags are in the ancestor relation.
+   [outs_spec items [] arr] is the specification: the arrival x emits something iff it is the n-th token of its tag
+   seen so far, and then exactly one combination, made of the n tokens of that tag (one per port), re-tagged
+   get_tag of their tags; never an exception.  Hence: exactly one combination per tag present on every port, none
+   for the others, at whatever order the tokens arrive. *)
+Theorem C02_dot_flat_partial : forall items (arr : list arv),
+  wf items arr -> run (c1 items) init_state arr = (outs_spec items [] arr, None).
+Proof. exact dot_flat. Qed.
 
 (* PARTIAL (one tag only): a dot product over the ports [items], one token per port, all tagged g, arriving in ANY
    order: nothing is emitted before the last arrival, which emits exactly one combination holding every port's
@@ -19,7 +31,7 @@ Local Open Scope string_scope. Local Open Scope list_scope.
 Theorem C02_dot_one_tag_partial : forall g items (arr : list (string * N)),
   arr <> [] -> NoDup (map fst arr) -> length arr = length items ->
   (forall q, In q (map fst arr) -> In q items) ->
-  run (c1 items) init_state (map (arrival g) arr) = (repeat [] (length arr - 1) ++ [[combo g arr]], None).
+  run (c1 items) init_state (map (arrival g) arr) = (repeat [] (length arr - 1) ++ [[Proofs.combo g arr]], None).
 Proof. exact dot_one_tag. Qed.
 
 (* PARTIAL (one tag only): any two arrival orders of the same tokens emit the same single combination *)
@@ -62,6 +74,22 @@ Example C02_one_tag_example :
   run (c1 ["a"; "b"; "c"]) init_state (map (arrival "0.10") arr) =
     ([[]; []; [[("c", (7%N, "0.10")); ("a", (5%N, "0.10")); ("b", (6%N, "0.10"))]]], None).
 Proof. split; [repeat constructor; simpl; intuition congruence|]. split; vm_compute; reflexivity. Qed.
+(* the hypotheses of the flat theorem are met by two ports, tags 0.9 and 0.10 interleaved, and the specification
+   says: (a,b)@0.10 at the third arrival, (a,b)@0.9 at the fourth *)
+Example C02_flat_example :
+  let arr : list arv := [("a", (0%N, "0.9")); ("b", (1%N, "0.10")); ("a", (2%N, "0.10")); ("b", (3%N, "0.9"))] in
+  wf ["a"; "b"] arr /\
+  outs_spec ["a"; "b"] [] arr =
+    [[]; []; [[("b", (1%N, "0.10")); ("a", (2%N, "0.10"))]]; [[("a", (0%N, "0.9")); ("b", (3%N, "0.9"))]]].
+Proof.
+  split; [|vm_compute; reflexivity]. split; [|split; [|split]].
+  - repeat (apply NoDup_cons; [simpl; intuition congruence|]). apply NoDup_nil.
+  - simpl. intros x [<-|[<-|[<-|[<-|[]]]]]; simpl; auto.
+  - unfold akey, atag. simpl. repeat (apply NoDup_cons; [simpl; intuition congruence|]). apply NoDup_nil.
+  - intros x y Hx Hy. simpl in Hx, Hy.
+    destruct Hx as [<-|[<-|[<-|[<-|[]]]]]; destruct Hy as [<-|[<-|[<-|[<-|[]]]]]; intros N;
+      try (exfalso; apply N; reflexivity); vm_compute; reflexivity.
+Qed.
 (* broadcast of a parent tag and a cartesian product, as the model computes them (not covered by a theorem) *)
 Example C02_broadcast_example :
   concat (fst (run (mkouter KDot [IPort "a"; IPort "b"]) init_state
@@ -74,6 +102,7 @@ Example C02_cartesian_example :
   [[("a", (0%N, "0.9.10")); ("b", (1%N, "0.9.10"))]; [("a", (2%N, "0.11.10")); ("b", (1%N, "0.11.10"))]].
 Proof. vm_compute. reflexivity. Qed.
 
+Print Assumptions C02_dot_flat_partial.
 Print Assumptions C02_dot_one_tag_partial.
 Print Assumptions C02_order_independent_one_tag_partial.
 Print Assumptions C02_dot_ancestor_pair_refuted.
